@@ -926,23 +926,45 @@ func c3Any(c *Ctx) {
 		// body: c = anyFieldC[Y](F)
 		var inst types.Type
 		var ctor *types.Func
+		// body: c = <an anyFieldC[Y] value built from the constructor F> - a conversion anyFieldC[Y](F), a literal
+		// anyFieldC[Y]{F} or anyFieldC[Y]{field: F}
 		ast.Inspect(cc, func(n ast.Node) bool {
-			call, ok := n.(*ast.CallExpr)
-			if !ok {
+			e, ok := n.(ast.Expr)
+			if !ok || inst != nil {
 				return true
 			}
-			if ix, ok := ast.Unparen(call.Fun).(*ast.IndexExpr); ok {
-				if id, ok := ix.X.(*ast.Ident); ok && id.Name == "anyFieldC" && len(call.Args) == 1 {
-					inst = info.TypeOf(ix.Index)
-					switch a := ast.Unparen(call.Args[0]).(type) {
-					case *ast.Ident:
-						ctor, _ = info.Uses[a].(*types.Func)
-					case *ast.SelectorExpr:
-						ctor, _ = info.Uses[a.Sel].(*types.Func)
+			switch e.(type) {
+			case *ast.CallExpr, *ast.CompositeLit:
+			default:
+				return true
+			}
+			tv, has := info.Types[e]
+			if !has || tv.Type == nil {
+				return true
+			}
+			nt, ok := types.Unalias(tv.Type).(*types.Named)
+			if !ok || nt.Origin().Obj().Name() != "anyFieldC" || nt.TypeArgs().Len() != 1 {
+				return true
+			}
+			inst = nt.TypeArgs().At(0)
+			ast.Inspect(e, func(m ast.Node) bool {
+				if ctor != nil {
+					return false
+				}
+				switch a := m.(type) {
+				case *ast.Ident:
+					if f, ok := info.Uses[a].(*types.Func); ok {
+						ctor = f
+					}
+				case *ast.SelectorExpr:
+					if f, ok := info.Uses[a.Sel].(*types.Func); ok {
+						ctor = f
+						return false
 					}
 				}
-			}
-			return true
+				return true
+			})
+			return false
 		})
 		if cc.List == nil {
 			hasDefault = true
@@ -1040,16 +1062,37 @@ func c3Any(c *Ctx) {
 	if c.Anchor("R3.3", "zap.anyFieldC", af != nil) {
 		afd, apk := c.DeclOf(ZapPath, "anyFieldC", "Any")
 		ok := false
-		if afd != nil {
-			s := types.ExprString(afd.Body.List[len(afd.Body.List)-1].(*ast.ReturnStmt).Results[0])
-			var assertT string
+		if afd != nil && afd.Recv != nil && len(afd.Recv.List) == 1 && len(afd.Recv.List[0].Names) == 1 && len(afd.Type.Params.List) >= 1 {
+			// the returned call passes (key, <val asserted to T>) to the constructor the receiver carries (the receiver
+			// itself when it is a function type, or a function-valued field of it)
+			recvName := afd.Recv.List[0].Names[0].Name
+			var params []string
+			for _, f := range afd.Type.Params.List {
+				for _, n := range f.Names {
+					params = append(params, n.Name)
+				}
+			}
+			assertOK := false
+			asserted := map[string]bool{}
 			ast.Inspect(afd.Body, func(n ast.Node) bool {
-				if ta, ok := n.(*ast.TypeAssertExpr); ok && ta.Type != nil {
-					assertT = types.ExprString(ta.Type) + " of " + types.ExprString(ta.X)
+				if as, ok := n.(*ast.AssignStmt); ok && len(as.Rhs) == 1 {
+					if ta, ok := ast.Unparen(as.Rhs[0]).(*ast.TypeAssertExpr); ok && ta.Type != nil && len(params) == 2 &&
+						types.ExprString(ta.Type) == "T" && types.ExprString(ta.X) == params[1] {
+						assertOK = true
+						if id, ok := as.Lhs[0].(*ast.Ident); ok {
+							asserted[id.Name] = true
+						}
+					}
 				}
 				return true
 			})
-			ok = s == "f(key, v)" && assertT == "T of val"
+			if rs, isRet := afd.Body.List[len(afd.Body.List)-1].(*ast.ReturnStmt); isRet && len(rs.Results) == 1 && assertOK && len(params) == 2 {
+				if call, isCall := ast.Unparen(rs.Results[0]).(*ast.CallExpr); isCall && len(call.Args) == 2 {
+					fun := types.ExprString(call.Fun)
+					a0, a1 := types.ExprString(call.Args[0]), types.ExprString(call.Args[1])
+					ok = (fun == recvName || strings.HasPrefix(fun, recvName+".")) && a0 == params[0] && asserted[a1]
+				}
+			}
 			_ = apk
 		}
 		c.Check(ok, "R3.3", "go.uber.org/zap.anyFieldC.Any", "assert-and-call", posOf(afd), "the adapter asserts the value to T and calls the constructor with the same key")
